@@ -24,6 +24,7 @@ CONSTANTS FAM, RULE, ORDER, D, OUTS,
           MAXDEPTH,      \* make / update depths 0..MAXDEPTH
           MAXLEN,        \* history length
           MAXPTS,        \* stop growing beyond this many points
+          COEF,          \* explore direct coefficient overwrites and removal of points by coefficient size
           EMIT
 
 VARIABLES g, h, n, last, delivered, base
@@ -101,10 +102,22 @@ DoDeliver == /\ ~IsEmpty(g) /\ g.con
                          /\ Step(r.g, [a |-> "deliver", p |-> IF p = q THEN <<p>> ELSE <<p, q>>], [act |-> "deliver", lim |-> g.lim])
                          /\ delivered' = delivered \cup {p, q} /\ UNCHANGED base
 
+\* coefficients overwritten directly; points removed by coefficient size (which ones is decided by the numerics: any subset)
+DoSetCoef == /\ COEF /\ ~IsEmpty(g) /\ ~g.con /\ g.outs > 0 /\ (g.pts # {} \/ g.need # {})
+             /\ Step(SetCoef(g, n + 1).g, [a |-> "setcoef"], last) /\ UNCHANGED <<delivered, base>>
+KeepChoices == {{}, g.pts} \cup {{p} : p \in g.pts} \cup {g.pts \ {p} : p \in g.pts}
+DoRemove == /\ COEF /\ ~IsEmpty(g) /\ ~g.con /\ g.outs > 0 /\ g.pts # {} /\ FAM = "localp"
+            /\ \E K \in KeepChoices :
+                  Step(RemoveTo(g, K).g, [a |-> "removen", keep |-> Cardinality(K)], last)
+            /\ UNCHANGED <<delivered, base>>
+
 DoFinish == ~IsEmpty(g) /\ g.con /\ Step(Finish(g).g, [a |-> "finish"], last) /\ UNCHANGED <<delivered, base>>
 
+\* after a removal only get / evaluate / file I/O are documented as safe: no further mutator is explored
 MCNext == /\ n < MAXLEN
-          /\ \/ (IsEmpty(g) /\ DoMake) \/ DoLoad \/ DoClear \/ DoMerge \/ DoClearLimits \/ DoSurp \/ DoUpdate \/ DoAniso
+          /\ (IF IsEmpty(g) THEN TRUE ELSE ~g.rem)
+          /\ \/ DoSetCoef \/ DoRemove
+             \/ (IsEmpty(g) /\ DoMake) \/ DoLoad \/ DoClear \/ DoMerge \/ DoClearLimits \/ DoSurp \/ DoUpdate \/ DoAniso
              \/ DoBegin \/ DoDeliver \/ DoFinish
 
 MCSpec == MCInit /\ [][MCNext]_vars
@@ -116,11 +129,15 @@ Emit == EMIT => PrintT(<<"SCRIPT", ToJson(h')>>)
 (* C07 *)
 Disjoint == IsEmpty(g) \/ g.pts \cap g.need = {}
 ValuesAttached == IsEmpty(g) \/ g.pts = {} \/ DOMAIN g.ep = g.pts
-LoadedMonotone == [][(~IsEmpty(g) /\ ~IsEmpty(g') /\ h' # h /\ h'[Len(h')].a \notin {"make", "update"}) => g.pts \subseteq g'.pts]_vars
+LoadedMonotone == [][(~IsEmpty(g) /\ ~IsEmpty(g') /\ h' # h /\ h'[Len(h')].a \notin {"make", "update", "removen"}) => g.pts \subseteq g'.pts]_vars
 UpdateKeepsLoaded == [][(~IsEmpty(g) /\ h' # h /\ h'[Len(h')].a = "update" /\ g.pts # {} /\ g.outs > 0) => (g'.pts = g.pts /\ g'.ep = g.ep)]_vars
 FrameRefine == [][(h' # h /\ h'[Len(h')].a \in {"surp", "aniso", "clear", "clearlimits"}) => (g'.pts = g.pts /\ g'.ep = g.ep)]_vars
 ClearOnlyDropsNeeded == [][(h' # h /\ h'[Len(h')].a = "clear") => (g'.need = {} /\ g'.pts = g.pts /\ g'.lim = g.lim)]_vars
 LoadMakesNeededLoaded == [][(h' # h /\ h'[Len(h')].a = "load" /\ g.need # {}) => (g'.pts = g.pts \cup g.need /\ g'.need = {} /\ \A p \in g.pts : g'.ep[p] = g.ep[p])]_vars
+
+\* removal only drops loaded points (with their values), never touches the ones kept; a coefficient overwrite keeps the point set
+RemoveOnlyDrops == [][(h' # h /\ h'[Len(h')].a = "removen") => (IsEmpty(g') \/ (g'.pts \subseteq g.pts /\ g'.need = {} /\ \A p \in g'.pts : g'.ep[p] = g.ep[p] /\ g'.lim = g.lim))]_vars
+SetCoefKeepsPoints == [][(h' # h /\ h'[Len(h')].a = "setcoef") => (g'.pts = (IF g.pts = {} THEN g.need ELSE g.pts) /\ g'.need = {} /\ g'.lim = g.lim)]_vars
 
 (* C08 *)
 MaxLoadedLevelMC(x, j) == IF x.pts = {} THEN 0 ELSE LET L == {PLevel(x, p, j) : p \in x.pts} IN CHOOSE m \in L : \A y \in L : y <= m
